@@ -48,11 +48,12 @@ class Expression:
     def argumentize(self, out, flags):
         func, params = self.functionalize(out, flags, is_generator=True)
         cutoff = 3 if flags.uses_context else 2
-        if len(params) <= 3:
+        if len(params) <= cutoff:
             return func
         else:
+            # Bind the values of the free variables now, at the call site.
             _ParseFunction = Code('_ParseFunction')
-            value = _ParseFunction(func, tuple(params[2:]), ())
+            value = _ParseFunction(func, tuple(params[cutoff:]), ())
             return out.var('arg', value)
 
     def constantize(self):
